@@ -11,6 +11,7 @@
 import TshVerif.Props.C11
 import TshVerif.Generated.Facts
 import TshVerif.Lemmas.BashTotal
+import TshVerif.Lemmas.BatchTotal
 namespace Tsh.C13
 open Tsh Tsh.Lexer Tsh.LexTables
 
@@ -54,6 +55,14 @@ theorem bash_emitter_total_on_typed_asts (p : Program) (ht : typedProgram p = tr
     ∃ script, Bash.emitBash p = .ok script := by
   obtain ⟨ls, h⟩ := Bash.compile_total p ht
   exact ⟨Bash.renderScript ls, by unfold Bash.emitBash; rw [h]⟩
+
+/-- **The Batch emitter neither fails nor panics on a typed, well-placed AST**: `ifs[len-1]`, `fors[len-1]`,
+    `endLabels[len-1]`, `funcs[len-1]` and the current function block are always there when the converter reaches
+    for them (heights of the stacks are an invariant of the walk). -/
+theorem batch_emitter_total_on_typed_asts (p : Program) (ht : typedProgram p = true) (hp : placedStmts {} p = true) :
+    ∃ script, Batch.emitBatch p = .ok script := by
+  obtain ⟨ls, h⟩ := Batch.compile_total p ht hp
+  exact ⟨Batch.renderScript ls, by unfold Batch.emitBatch; rw [h]⟩
 
 /-- the emitter model itself terminates on EVERY AST (it is defined by structural recursion): a result
     is always one of script / error / panic -/
